@@ -1,3 +1,197 @@
-import PybtexModel.Model.Basic
+/-
+C14 — cross-referenced fields are inherited, own fields win, lookup always terminates.
+
+Property theorems only.  Model of the (repaired) code: `Model/Crossref.lean` — `findField` is a
+total function, its recursion is well-founded on the number of database keys not yet followed —
+on the database model of `Model/Db.lean`; reference lookup: `Spec/Citations.lean` (`walk`,
+`lookup`); helper lemmas: `Lemmas/Crossref.lean`.  `DbWF` / `EntryWF` are the decidable
+well-formedness predicates of `Lemmas/Citations.lean` (every database the reader builds
+satisfies them: `C05_reader_wf`).
+-/
+import PybtexModel.Lemmas.Crossref
+
 namespace Pybtex.Props
+open Pybtex Spec
+
+namespace C14Ex
+/-- string literal as model string -/
+def s (x : String) : Str := x.toList
+
+def entry (fields : List (String × String)) (persons : List (String × List String)) : Entry :=
+  { key := [], type := s "misc",
+    fields := CIDict.ofPairs (fields.map fun p => (s p.1, s p.2)),
+    persons := CIDict.ofPairs (persons.map fun p => (s p.1, p.2.map s)) }
+
+def dbOf (file : List (Str × Entry)) : BibData :=
+  match BibData.readFile none file with
+  | some (db, _) => db
+  | none => BibData.init none
+
+def get (db : BibData) (k : String) : Entry :=
+  match db.entries.getItem (s k) with
+  | some e => e
+  | none => entry [] []
+
+/-- child → Parent → grand (three levels, mixed-case references), `self` → itself, `m1` ⇄ `m2`,
+`dang` → nowhere -/
+def db : BibData := dbOf [
+  (s "child", entry [("title", "T"), ("crossref", "PARENT")] []),
+  (s "Parent", entry [("Note", "pn"), ("crossref", "grand")] [("editor", ["E, One", "E, Two"])]),
+  (s "grand", entry [("note", "gn"), ("year", "1984")] [("author", ["G, A"])]),
+  (s "self", entry [("crossref", "SELF"), ("note", "sn")] []),
+  (s "m1", entry [("crossref", "m2")] []),
+  (s "m2", entry [("crossref", "M1"), ("year", "2001")] []),
+  (s "dang", entry [("crossref", "nowhere")] [])]
+end C14Ex
+open C14Ex
+
+instance {V : Type} (d : CIDict V) : Decidable (CIDict.Inv d) := by
+  unfold CIDict.Inv Lock; exact inferInstance
+
+instance (e : Entry) : Decidable (EntryWF e) :=
+  decidable_of_iff (CIDict.Inv e.fields ∧ CIDict.Inv e.persons) ⟨fun h => ⟨h.1, h.2⟩, fun h => ⟨h.fields, h.persons⟩⟩
+
+instance (d : BibData) : Decidable (DbWF d) :=
+  decidable_of_iff (CIDict.Inv d.entries ∧ (∀ t ∈ CIDict.abs d.entries, t.2.2.key = t.2.1) ∧
+      ∀ t ∈ CIDict.abs d.entries, CIDict.Inv t.2.2.fields ∧ CIDict.Inv t.2.2.persons)
+    ⟨fun h => ⟨h.1, h.2.1, fun t ht => ⟨(h.2.2 t ht).1, (h.2.2 t ht).2⟩⟩,
+     fun h => ⟨h.inv, h.keyEq, fun t ht => ⟨(h.entries t ht).fields, (h.entries t ht).persons⟩⟩⟩
+
+/-- A field the entry defines itself always wins — whatever the database, whatever has been
+followed before, whatever the parents say. -/
+theorem C14_own_field_wins (bibData : Option BibData) (visited : List Str) (e : Entry) (name : Str) (v : Str)
+    (h : e.fields.getItem name = some v) : findField bibData visited e name = some v := by
+  rw [findField_eq]
+  simp [Entry.own, h]
+
+theorem C14_own_field_wins_nonvacuous :
+    DbWF db ∧ EntryWF (get db "Parent") ∧
+    (get db "Parent").fields.getItem (s "NOTE") = some (s "pn") ∧
+    lookup db.toS (get db "Parent").toS (s "note") = some (s "pn") ∧
+    lookup db.toS (get db "grand").toS (s "note") = some (s "gn") := by decide
+
+/-- Inheritance: the lookup yields the value of the first entry along the cross-reference chain
+that defines the field or role (model = reference lookup), for every well-formed database —
+every graph, cyclic or not — every entry (of the database or not) and every name. -/
+theorem C14_inherits_nearest (db : BibData) (hdb : DbWF db) (e : Entry) (he : EntryWF e) (name : Str) :
+    e.findField name (some db) = lookup db.toS e.toS name :=
+  findField_spec hdb he name _ (Nat.le_refl _)
+
+theorem C14_inherits_nearest_nonvacuous :
+    -- `child` has no note: its parent's wins over its grandparent's; `year` and `author` come from two levels up
+    lookup db.toS (get db "child").toS (s "note") = some (s "pn") ∧
+    lookup db.toS (get db "child").toS (s "year") = some (s "1984") ∧
+    lookup db.toS (get db "child").toS (s "author") = some (s "G, A") ∧
+    lookup db.toS (get db "child").toS (s "editor") = some (s "E, One and E, Two") ∧
+    lookup db.toS (get db "child").toS (s "title") = some (s "T") ∧
+    lookup db.toS (get db "Parent").toS (s "title") = none := by decide
+
+/-- Person roles are visible as `" and "`-joined fields (when no field of that name hides them). -/
+theorem C14_person_roles_joined (bibData : Option BibData) (visited : List Str) (e : Entry) (role : Str)
+    (persons : List Str) (hf : e.fields.getItem role = none) (hp : e.persons.getItem role = some persons) :
+    findField bibData visited e role = some (joinWith Pybtex.andSep persons) := by
+  rw [findField_eq]
+  simp [Entry.own, hf, findPersonField, hp]
+
+theorem C14_person_roles_joined_nonvacuous :
+    (get db "Parent").fields.getItem (s "Editor") = none ∧
+    (get db "Parent").persons.getItem (s "Editor") = some [s "E, One", s "E, Two"] ∧
+    joinWith Pybtex.andSep [s "E, One", s "E, Two"] = s "E, One and E, Two" := by decide
+
+/-- A field counts as missing iff no entry along the whole chain defines it (as a field or a
+role); without a database only the entry itself is asked. -/
+theorem C14_missing_iff (db : BibData) (hdb : DbWF db) (e : Entry) (he : EntryWF e) (name : Str) :
+    (e.findField name (some db) = none ↔ ∀ q ∈ walk db.toS (db.toS.length + 1) e.toS, q.own name = none) ∧
+    (e.findField name none = none ↔ e.toS.own name = none) := by
+  constructor
+  · rw [C14_inherits_nearest db hdb e he, lookup, List.findSome?_eq_none_iff]
+  · show findField none [] e name = none ↔ _
+    rw [findField_noDb, Entry.own_toS he]
+
+theorem C14_missing_iff_nonvacuous :
+    lookup db.toS (get db "grand").toS (s "title") = none ∧
+    lookup db.toS (get db "child").toS (s "publisher") = none ∧
+    (get db "child").toS.own (s "note") = none := by decide
+
+/-- Termination.  The lookup is a total function (Lean accepts `findField` only with its
+termination proof: each step follows a database key not followed before).  Its answer is the
+same as that of a walk of ANY length ≥ `db.length + 1` along the chain — so going round a cycle
+once more can never change it — and on a chain (cyclic or not) none of whose entries defines the
+field the answer is "missing"; no other outcome exists. -/
+theorem C14_terminates (db : BibData) (hdb : DbWF db) (e : Entry) (he : EntryWF e) (name : Str) :
+    (∀ n, db.toS.length + 1 ≤ n →
+        e.findField name (some db) = (walk db.toS n e.toS).findSome? (·.own name)) ∧
+    ((∀ n, ∀ q ∈ walk db.toS n e.toS, q.own name = none) → e.findField name (some db) = none) ∧
+    (∃ r : Option Str, e.findField name (some db) = r) := by
+  refine ⟨fun n hn => findField_spec hdb he name n hn, ?_, ⟨_, rfl⟩⟩
+  intro h
+  rw [findField_spec hdb he name _ (Nat.le_refl _), List.findSome?_eq_none_iff]
+  exact h _
+
+theorem C14_terminates_nonvacuous :
+    -- self reference: own field found, other field missing; mutual reference: found across the cycle, else missing
+    lookup db.toS (get db "self").toS (s "note") = some (s "sn") ∧
+    lookup db.toS (get db "self").toS (s "year") = none ∧
+    lookup db.toS (get db "m1").toS (s "year") = some (s "2001") ∧
+    lookup db.toS (get db "m1").toS (s "note") = none ∧
+    lookup db.toS (get db "m2").toS (s "note") = none ∧
+    (walk db.toS 50 (get db "m1").toS).findSome? (·.own (s "note")) = none := by decide
+
+/-- A dangling reference: the lookup of a field the entry does not define itself is "missing"
+(not a crash), and resolving a citation list that contains the entry reports the bad
+cross-reference. -/
+theorem C14_dangling (db : BibData) (hdb : DbWF db) (c : Str) (e : Entry) (name x : Str)
+    (hc : db.entries.getItem c = some e) (hx : e.fields.getItem Pybtex.xrefName = some x)
+    (hd : db.entries.getItem x = none) :
+    (e.own name = none → e.findField name (some db) = none) ∧
+    (∀ (L : List Str) (m : Int), c ∈ L → Report.badCrossref c x ∈ (db.crossreferenced L m).2) := by
+  constructor
+  · intro hown
+    show findField (some db) [] e name = none
+    rw [findField_eq, hown]
+    simp [hx, hd]
+  · intro L m hcL
+    rw [crossreferenced_spec hdb]
+    simp only [List.mem_map]
+    refine ⟨(c, x), ?_, rfl⟩
+    rw [dangling_eq, List.mem_filterMap]
+    refine ⟨c, hcL, ?_⟩
+    have hf := getItem_entries hdb c
+    rw [hc] at hf
+    obtain ⟨hwe, -⟩ := getItem_entries_wf hdb hc
+    have hfx := getItem_entries hdb x
+    rw [hd] at hfx
+    simp only [danglingAt, ← hf, Option.map_some, Option.bind_some, ← Entry.crossref_toS hwe, hx, ← hfx, Option.map_none]
+
+theorem C14_dangling_nonvacuous :
+    (db.entries.getItem (s "dang")).isSome = true ∧
+    (get db "dang").fields.getItem Pybtex.xrefName = some (s "nowhere") ∧
+    (db.entries.getItem (s "nowhere")).isNone = true ∧
+    lookup db.toS (get db "dang").toS (s "note") = none ∧
+    (db.crossreferenced [s "child", s "dang"] 2).2 = [Report.badCrossref (s "dang") (s "nowhere")] := by decide
+
+/-- Both engines see the same thing: the value a BST program gets from a field variable
+(`Field.value`; `missing$` is 1 exactly for `MissingField`) and the value the template node
+`field` gets in the Python engine (whose formatting context now carries the database) are the
+reference lookup — a value on one side iff the same value on the other, missing iff missing. -/
+theorem C14_engines_agree (db : BibData) (hdb : DbWF db) (e : Entry) (he : EntryWF e) (name : Str) :
+    (bstFieldValue db e name = match lookup db.toS e.toS name with
+        | some v => BstValue.str v
+        | none => BstValue.missing name) ∧
+    (pythonEngineField db e name = match lookup db.toS e.toS name with
+        | some v => Except.ok v
+        | none => Except.error name) ∧
+    (∀ v, bstFieldValue db e name = BstValue.str v ↔ pythonEngineField db e name = Except.ok v) ∧
+    (bstFieldValue db e name = BstValue.missing name ↔ pythonEngineField db e name = Except.error name) := by
+  have h := C14_inherits_nearest db hdb e he name
+  simp only [bstFieldValue, pythonEngineField, templateField, h]
+  cases lookup db.toS e.toS name with
+  | none => simp
+  | some v => simp
+
+theorem C14_engines_agree_nonvacuous :
+    DbWF db ∧ EntryWF (get db "child") ∧
+    lookup db.toS (get db "child").toS (s "note") = some (s "pn") ∧
+    lookup db.toS (get db "m1").toS (s "note") = none := by decide
+
 end Pybtex.Props
